@@ -36,7 +36,7 @@ def generate(ctx):
                "adjust": rng.choice([None, "half", "zero", "clamp", "identity"]),
                # bracket observations that are not finite (the NaN fill of an event record, an "infinitely long ago" marker):
                # the pairs that REPLACE a bracket by the sample must still hand the sample back
-               "nonfinite": rng.random() < 0.35}
+               "nonfinite": rng.random() < 0.35, "stray_kwarg": rng.random() < 0.5}
     for _ in range(600 if th else 40):
         dist = rng.choice(["Poisson", "Normal", "LogNormal"])
         if dist == "Poisson":
@@ -82,6 +82,11 @@ def run_case(ctx, desc):
 def _interp(ctx, desc):
     ex, ip, kw = PAIRS[desc["pair"]]
     kw = {k: desc["const"] if "time" in k else 1.0 / desc["const"] for k in kw}
+    if kw and desc.get("stray_kwarg"):
+        # one keyword dictionary shared by several kernels (as a record's interp / extrap kwargs are): every kernel absorbs the
+        # keywords meant for the others, here the other decay kernel's constant with an unrelated value
+        kw = {**kw, ("rate_constant" if "time_constant" in kw else "time_constant"): 3.7}
+        ctx.count("decay_roundtrips_with_a_stray_keyword")
     dt = desc["dt"]
     g = torch.Generator().manual_seed(desc["seed"])
     shape = tuple(desc["shape"])
